@@ -23,8 +23,10 @@ import traceback
 
 VERIF = os.path.dirname(os.path.dirname(os.path.abspath(__file__)))
 REPO = os.environ.get('PLAYBACK_VERIF_REPO', '/repo')
-EVIDENCE_DIR = os.path.join(VERIF, 'evidence')
-REPLAY_DIR = os.path.join(VERIF, 'replays')
+# runs against a scratch copy (mutant testing) never touch the committed evidence
+_SCRATCH = REPO != '/repo'
+EVIDENCE_DIR = os.path.join(VERIF, 'evidence') if not _SCRATCH else '/tmp/mc_scratch/evidence'
+REPLAY_DIR = os.path.join(VERIF, 'replays') if not _SCRATCH else '/tmp/mc_scratch/replays'
 KNOWN_FILE = os.path.join(VERIF, 'known_findings.json')
 
 
